@@ -553,11 +553,19 @@ func (g *vcgen) havocAll() {
 // havocEvent forgets the ghost record of one event across a call that may emit it
 func (g *vcgen) havocEvent(ev string) {
 	g.eventVars(ev)
-	g.havocNamed("G.first." + ev) // uses the counter as it is before the call
+	g.havocNamed("G.first." + ev) // uses the counter and the clock as they are before the call
 	g.havocNamed("G.cnt." + ev)
 	g.havocNamed("G.last." + ev)
+	g.havocNamed("G.now")
+	// time stamps never run ahead of the ghost clock
+	g.assume(fmt.Sprintf("(and (<= %s %s) (<= %s %s))", g.get(g.st, "G.last."+ev), g.get(g.st, "G.now"), g.get(g.st, "G.first."+ev), g.get(g.st, "G.now")))
 	if _, ok := g.varSort["G.ret."+ev]; ok {
 		g.havocNamed("G.ret." + ev)
+	}
+	for n := range g.varSort {
+		if strings.HasPrefix(n, "G.arg."+ev+".") {
+			g.havocNamed(n)
+		}
 	}
 	g.havocNamed("G.now")
 }
@@ -1631,6 +1639,11 @@ func (g *vcgen) eventVars(ev string) {
 	g.stateVar("G.first."+ev, "Int")
 	g.stateVar("G.last."+ev, "Int")
 	g.stateVar("G.now", "Int")
+	if !g.declared["evwf:"+ev] {
+		g.declared["evwf:"+ev] = true
+		// at entry no time stamp is ahead of the ghost clock
+		g.emit(fmt.Sprintf("(assert (and (<= %s %s) (<= %s %s)))", g.base("G.last."+ev), g.base("G.now"), g.base("G.first."+ev), g.base("G.now")))
+	}
 }
 
 func (e *Engine) eventsFor(c *ssa.CallCommon) []*EventDecl {
@@ -1716,6 +1729,25 @@ func (g *vcgen) emitEvents(c *ssa.CallCommon, args []string, results []string, r
 		// first(E): time of the first occurrence during this activation
 		g.set("G.first."+ev.Name, fmt.Sprintf("(ite (and %s (= %s %s)) %s %s)", cond, cnt, g.get(g.old0, "G.cnt."+ev.Name), nn, first))
 		g.set("G.last."+ev.Name, fmt.Sprintf("(ite %s %s %s)", cond, nn, last))
+		if !ret {
+			// arguments of the last occurrence: lastarg(E, k)
+			all := args
+			var vals []ssa.Value
+			vals = append(vals, c.Args...)
+			if c.IsInvoke() {
+				all = append([]string{g.val(c.Value)}, args...)
+				vals = append([]ssa.Value{c.Value}, c.Args...)
+			}
+			if g.argTypes == nil {
+				g.argTypes = map[string]types.Type{}
+			}
+			for k, a := range all {
+				an := fmt.Sprintf("G.arg.%s.%d", ev.Name, k)
+				g.stateVar(an, g.s.sortOf(vals[k].Type()))
+				g.argTypes[an] = vals[k].Type()
+				g.set(an, fmt.Sprintf("(ite %s %s %s)", cond, a, g.get(g.st, an)))
+			}
+		}
 		if ret && len(results) > 0 {
 			rn := "G.ret." + ev.Name
 			g.set(rn, fmt.Sprintf("(ite %s %s %s)", cond, results[0], g.get(g.st, rn)))
